@@ -52,7 +52,7 @@ def runD (chk : Bool) (toks : List String) : M Unit := do
     if ["rio", "rino", "rinoo", "latest"].contains op then
       match ty with
       | .f => dSel cF op a b | .b => dSel cB op a b | .q => dSel cQ' op a b
-      | .s => dSel cS op a b | .c => dSel cC op a b
+      | .s => dSel cS op a b | .c => dSel cC op a b | .w => dSel ⟨pW, sW⟩ op a b
     else
     let base := if op.endsWith "as" && op.length == 5 then (op.take 3).toString else op
     match ty, base with
@@ -60,6 +60,10 @@ def runD (chk : Bool) (toks : List String) : M Unit := do
     | .f, "sub" => dBin cF cF (· - ·) a b
     | .f, "mul" => dBin cF cF (· * ·) a b
     | .f, "div" => dBin cF cF (· / ·) a b
+    | .w, "add" => dBin ⟨pW, sW⟩ ⟨pW, sW⟩ (wCat "") a b
+    | .w, "sub" => dBin ⟨pW, sW⟩ ⟨pW, sW⟩ (wCat "m") a b
+    | .w, "mul" => dBin ⟨pW, sW⟩ ⟨pW, sW⟩ (wCat "x") a b
+    | .w, "div" => dBin ⟨pW, sW⟩ ⟨pW, sW⟩ (wCat "d") a b
     | .q, "add" => dBinP cQ' cQ' (Quantity.add chk) a b
     | .q, "sub" => dBinP cQ' cQ' (Quantity.sub chk) a b
     | .q, "mul" => dBin cQ' cQ' (Quantity.mul chk) a b
